@@ -88,6 +88,95 @@ def apply(tree, site):
 
 
 
+# ---- second family: structural edits (locks, finally, handler types, statement order, dropped arguments) -----------------
+def sites2(tree):
+    out = []
+    for fn in [n for n in ast.walk(tree) if isinstance(n, ast.FunctionDef)]:
+        for owner in ast.walk(fn):
+            for field in ("body", "orelse", "finalbody"):
+                blk = getattr(owner, field, None)
+                if not isinstance(blk, list):
+                    continue
+                for j, st in enumerate(blk):
+                    if isinstance(st, ast.With) and len(st.items) == 1:
+                        out.append(Site("unwith", (blk, j), "%s: `with %s:` removed (body kept)" % (fn.name, ast.unparse(st.items[0].context_expr)[:50])))
+                    if isinstance(st, ast.Try) and st.finalbody and not st.handlers:
+                        out.append(Site("unfinally", (blk, j), "%s: try/finally flattened (`%s` no longer runs on exceptions)" % (fn.name, ast.unparse(st.finalbody[0])[:50])))
+                    if isinstance(st, ast.Try) and st.finalbody and st.handlers:
+                        out.append(Site("dropfinally", (blk, j), "%s: finally clause `%s` moved after the try" % (fn.name, ast.unparse(st.finalbody[0])[:50])))
+                    if j + 1 < len(blk) and all(isinstance(x, (ast.Assign, ast.AugAssign, ast.Expr)) and not (
+                            isinstance(x, ast.Expr) and isinstance(x.value, ast.Constant)) for x in (st, blk[j + 1])):
+                        out.append(Site("swapstmt", (blk, j), "%s: statements `%s` and `%s` swapped" % (fn.name, ast.unparse(st)[:40], ast.unparse(blk[j + 1])[:40])))
+        for n in ast.walk(fn):
+            if isinstance(n, ast.ExceptHandler):
+                if n.type is None:
+                    out.append(Site("exc_narrow", n, "%s: bare `except:` narrowed to `except Exception:`" % fn.name))
+                elif ast.unparse(n.type) not in ("Exception", "BaseException"):
+                    out.append(Site("exc_widen", n, "%s: `except %s` widened to `except Exception`" % (fn.name, ast.unparse(n.type)[:40])))
+                else:
+                    out.append(Site("exc_other", n, "%s: `except %s` narrowed to `except ValueError`" % (fn.name, ast.unparse(n.type)[:40])))
+            elif isinstance(n, ast.Call):
+                fnm = ast.unparse(n.func).split(".")[-1]
+                if fnm in ("debug", "info", "warning", "error", "exception", "critical", "log", "format"):
+                    continue
+                for ki, k in enumerate(n.keywords):
+                    if k.arg is not None:
+                        out.append(Site("dropkw", (n, ki), "%s: keyword argument `%s=` of `%s` dropped" % (fn.name, k.arg, ast.unparse(n)[:50])))
+                if len(n.args) >= 2 and not isinstance(n.args[-1], ast.Starred):
+                    out.append(Site("droparg", n, "%s: last positional argument of `%s` dropped" % (fn.name, ast.unparse(n)[:50])))
+    return out
+
+
+def apply2(site):
+    k = site.kind
+    if k == "unwith":
+        blk, j = site.node
+        blk[j:j + 1] = blk[j].body
+    elif k == "unfinally":
+        blk, j = site.node
+        blk[j:j + 1] = blk[j].body + blk[j].finalbody
+    elif k == "dropfinally":
+        blk, j = site.node
+        st = blk[j]
+        fb = st.finalbody
+        st.finalbody = []
+        blk[j + 1:j + 1] = fb
+    elif k == "swapstmt":
+        blk, j = site.node
+        blk[j], blk[j + 1] = blk[j + 1], blk[j]
+    elif k == "exc_narrow":
+        site.node.type = ast.Name(id="Exception", ctx=ast.Load())
+    elif k == "exc_widen":
+        site.node.type = ast.Name(id="Exception", ctx=ast.Load())
+    elif k == "exc_other":
+        site.node.type = ast.Name(id="ValueError", ctx=ast.Load())
+    elif k == "dropkw":
+        n, ki = site.node
+        del n.keywords[ki]
+    elif k == "droparg":
+        site.node.args.pop()
+
+
+def mutate2(source, index=None, kind=None, desc=None, ordinal=0):
+    tree = ast.parse(source)
+    ss = sites2(tree)
+    if index is None:
+        cand = [i for i, s_ in enumerate(ss) if s_.kind == kind and s_.desc == desc]
+        if ordinal >= len(cand):
+            return None
+        index = cand[ordinal]
+    if index >= len(ss):
+        return None
+    apply2(ss[index])
+    ast.fix_missing_locations(tree)
+    try:
+        new_src = ast.unparse(tree)
+        compile(new_src, "<mutant>", "exec")
+    except Exception:
+        return None
+    return new_src
+
+
 def mutate(source, index=None, kind=None, desc=None, ordinal=0):
     """-> mutated source (ast.unparse of the whole module) for the site given by its index, or by (kind, desc, ordinal among the
     sites with that kind and description); None when the site is absent or the result does not compile"""
